@@ -279,7 +279,9 @@ class Prop(object):
         shapes = [dict(nuid=2, nsub=1, secret=False, uat=True, nself=1, third='absent', revoke_uid=False, extras=('direct',), same_time=False, trust=False, prim='ed25519a'),
                   dict(nuid=1, nsub=2, secret=True, uat=False, nself=2, third=None, revoke_uid=True, extras=(), same_time=True, trust=True, prim='ecdsa_p256a'),
                   dict(nuid=3, nsub=0, secret=False, uat=False, nself=1, third='true', revoke_uid=False, extras=('revoker', 'keyrev'), same_time=False, trust=True, prim='rsa2048a'),
-                  dict(nuid=1, nsub=1, secret=True, uat=False, nself=1, third=None, revoke_uid=False, extras=(), same_time=False, trust=False, prim='ed25519c')]
+                  dict(nuid=1, nsub=1, secret=True, uat=False, nself=1, third=None, revoke_uid=False, extras=(), same_time=False, trust=False, prim='ed25519c'),
+                  # the key that issued the third-party certifications on keys #0 and #2 (a keyring export where one key certified another)
+                  dict(nuid=1, nsub=0, secret=False, uat=False, nself=1, third=None, revoke_uid=False, extras=(), same_time=False, trust=False, prim='ed25519b')]
         blobs = []
         known = {}
         for s in shapes:
